@@ -19,7 +19,7 @@ import (
 // match-all route so that a recording handler stands where the server's
 // closing fallback would be.
 func TestStreamIntegrityServerTCP(t *testing.T) {
-	ln, err := net.Listen("tcp", "127.0.0.1:0")
+	ln, err := hx.Listen("tcp", "127.0.0.1:0")
 	if err != nil {
 		t.Fatal(err)
 	}
@@ -51,7 +51,7 @@ func TestStreamIntegrityServerTCP(t *testing.T) {
 			defer rx.Unregister(c.RemoteAddr().String())
 			srv.VerifHandle(c)
 		}()
-		c, err := net.Dial("tcp", ln.Addr().String())
+		c, err := hx.Dial("tcp", ln.Addr().String())
 		if err != nil {
 			rt.Fatalf("dial: %v", err)
 		}
